@@ -349,6 +349,18 @@ OBLIGATIONS.append(M("C02", "c02_script_parse", {"q": "script_parse"}, ["Script:
                      "twelve structured script shapes (opcodes; direct pushes of 1, 2, 3, 75 bytes; PUSHDATA1 of 3, 76, 255; PUSHDATA2 of 256; IF/ELSE, NOTIF without ELSE, empty branches, two-level nesting; OP_0 before a push; the empty script) with symbolic payload bytes: parse(reference serialisation) = the structure; the same inputs cut short inside their final push and three unclosed conditionals must be rejected", cost=1,
                      stubs=("E2: content-aware std::io::Cursor over a byte string of known length (read_u8/u16/u32, partial read, position)",)))
 
+# ---------------------------------------------------------------- C17 (token level)
+EXPLANATION["C17"] = ("Partial: TOKEN LEVEL only. Text is modelled as a list of tokens separated by single spaces: opcode names and decimal literals are concrete strings (names are the OpCodes variant "
+                      "identifiers read from the source, as strum renders and parses them), hex::encode of a byte string is 'the lower-case hex of these bytes', hex::decode inverts it, and a comparison of such a "
+                      "token with a string literal is the byte-wise condition under which the rendering equals the literal. E2 executes Script::to_asm_string_impl(extended = false) -> script_bits_to_asm_string "
+                      "(incl. its closure and the recursion into conditional branches) and then Script::from_asm_string -> map_string_to_script_bit -> if_statement_pass from MIR on structured scripts with "
+                      "symbolic push payloads and decides that the re-parsed script is the original: element kinds, opcode identities, push class chosen from the data length (direct / PUSHDATA1 / PUSHDATA2), "
+                      "payload bytes, conditional nesting with empty and missing branches. NOT decided: character-level behaviour (whitespace runs, line breaks, upper-case or odd-length hex, what exactly is "
+                      "rejected), the extended rendering, strum's generated name tables.")
+OBLIGATIONS.append(M("C17", "c17_asm_tokens", {"q": "asm_roundtrip"}, ["Script::to_asm_string_impl", "Script::script_bits_to_asm_string (+closure)", "Script::from_asm_string (+closure)", "Script::map_string_to_script_bit", "Script::if_statement_pass / read_if_statement / read_pass / read_fail", "VarInt::get_pushdata_opcode"],
+                     "thirteen minimally-pushed structured scripts (opcodes; direct pushes of 1, 2, 3, 75 bytes; PUSHDATA1 of 76 and 255; PUSHDATA2 of 256; IF/ELSE, NOTIF without ELSE, empty branches, two-level nesting; OP_0; the empty script) with ALL payload bytes symbolic - so every one- and two-byte payload whose hex text is all digits is covered", cost=1,
+                     stubs=("E2 text models: <OpCodes as ToString>::to_string / <i32 as ToString>::to_string -> literal tokens; hex::encode / hex::decode -> inverse token constructors; [String]::join(\" \") / str::split(' ') / str::trim / String::is_empty / <str as PartialEq>::eq on tokens; <OpCodes as FromStr>::from_str by variant name; collect::<Result<Vec<_>, _>>",)))
+
 
 def for_property(pid):
     return [dict(o) for o in OBLIGATIONS if o["property"] == pid]
